@@ -454,6 +454,18 @@ def call_method(ip, st, recv, name, args, kwargs):
         if h is not None:
             h(st, recv, d)
         return d
+    if isinstance(recv, SInt) and name == "to_bytes":
+        # n.to_bytes(1, order): OverflowError unless 0 <= n <= 255 (CPython: negative or too big to convert),
+        # else the one-byte bytes object holding n (either byte order)
+        length = args[0] if args else kwargs.get("length", 1)
+        if length != 1:
+            raise Unsupported("int.to_bytes with a length other than 1")
+        st.partial(both(V._cmp(">=", recv, 0), V._cmp("<=", recv, 255)), OverflowError, "int too big to convert")
+        from .text import SText
+
+        t = SText("bytes", 1, st.fresh_name("byte"))
+        st.assume(t.f(z3.IntVal(0)) == recv.e)
+        return t
     if isinstance(recv, SExc) and name == "with_traceback":
         return recv
     if isinstance(recv, tuple) and name == "index":
